@@ -144,6 +144,11 @@ class Run:
         self.dir = os.path.join(WORK, tag)
         os.makedirs(self.dir, exist_ok=True)
         self.n = 0
+        # every batch of operations is also run by a second implementation process in which the -l logger is installed and
+        # RUST_LOG=trace, so that every log macro's arguments are evaluated: what is decoded must not depend on it (C19 names
+        # -l; C10.. quantify over configurations).  Differences are collected here and reported by the runner.
+        self.debug_log_twin = os.environ.get("VERIF_NO_LOG_TWIN") is None
+        self.logdiffs = []
 
     def execute(self, ops_lines, model=True, impl=True, timeout=1800, env=None):
         """returns (impl_lines, impl_stdout_text, model_lines)"""
@@ -154,9 +159,12 @@ class Run:
             f.write("\n".join(ops_lines) + "\n")
         impl_lines, impl_stdout, model_lines = [], "", []
         procs = []
+        twin = None
         if impl:
             so = open(base + ".stdout", "wb")
             procs.append(("impl", subprocess.Popen([HARNESS, ops_path, base + ".impl"], stdout=so, stderr=subprocess.PIPE, env=(dict(ENV, **env) if env else ENV)), so))
+            if self.debug_log_twin and not any(o.startswith("tcp") for o in ops_lines):
+                twin = self._start_twin(ops_path, base, env)
         if model:
             mo = open(base + ".model", "wb")
             procs.append(("model", subprocess.Popen([DRIVER], stdin=open(ops_path, "rb"), stdout=mo, stderr=subprocess.PIPE), mo))
@@ -176,9 +184,38 @@ class Run:
         if impl:
             impl_lines = open(base + ".impl", encoding="utf-8", errors="replace").read().splitlines()
             impl_stdout = open(base + ".stdout", encoding="utf-8", errors="replace").read()
+            if twin is not None:
+                self._judge_twin(twin, ops_path, base, env, impl_lines, timeout)
         if model:
             model_lines = open(base + ".model", encoding="utf-8", errors="replace").read().splitlines()
         return impl_lines, impl_stdout, model_lines
+
+    def _start_twin(self, ops_path, base, env):
+        e = dict(ENV, **(env or {}))
+        e.update(RUST_LOG="trace", SQH_DEBUG_LOG="1")
+        return subprocess.Popen([HARNESS, ops_path, base + ".impl2"], stdout=subprocess.DEVNULL, stderr=subprocess.DEVNULL, env=e)
+
+    def _judge_twin(self, twin, ops_path, base, env, impl_lines, timeout):
+        def finish(p):
+            try:
+                p.communicate(timeout=timeout)
+            except subprocess.TimeoutExpired:
+                p.kill()
+                return None
+            return open(base + ".impl2", encoding="utf-8", errors="replace").read().splitlines() if os.path.exists(base + ".impl2") else []
+        def diff(a, b):
+            if a is None:
+                return (0, "", "the process with debug logging did not terminate")
+            for i, (x, y) in enumerate(zip(a + [None] * (len(b) - len(a)), b + [None] * (len(a) - len(b)))):
+                if x != y:
+                    return (i, x, y)
+            return None
+        d = diff(finish(twin), impl_lines)
+        if d is not None:
+            # a whole-second age may tick between two processes: one repetition before it counts
+            d2 = diff(finish(self._start_twin(ops_path, base, env)), impl_lines)
+            if d2 is not None:
+                self.logdiffs.append({"ops_file": ops_path, "line": d2[0], "with_debug_logging": d2[1], "without": d2[2]})
 
     def cleanup(self):
         shutil.rmtree(self.dir, ignore_errors=True)
